@@ -9,12 +9,15 @@ use std::sync::Mutex;
 /// A non-deterministic decision taken by arroy, recorded for replay.
 #[derive(Debug, Clone, PartialEq)]
 pub enum Event {
+    /// `Distance::create_split` is about to be called.
+    SplitStart,
     /// The bytes of the normal returned by `Distance::create_split`.
     Normal(Vec<u8>),
     /// The number of leaves selected by `ImmutableLeafs::new`.
     Batch(usize),
-    /// An event pushed by the harness itself (e.g. a draw of its random number generator).
-    Ext(u64),
+    /// An event pushed by the harness itself (e.g. a draw of its random number generator),
+    /// as a kind chosen by the harness and a value.
+    Ext(u8, u64),
 }
 
 static SINK: Mutex<Option<Vec<Event>>> = Mutex::new(None);
